@@ -1,12 +1,14 @@
 //! qvh — correspondence harness library. Each property has its own binary `src/bin/cXX.rs`:
 //! `cXX --seed N --tier quick|thorough [--only IDX]` prints one
 //! `(case <idx> <input> <implementation-output>)` line per case on stdout.
+pub mod isolated;
 pub mod rng;
 pub mod wire;
 
 use std::io::Write;
 use std::panic::{catch_unwind, AssertUnwindSafe};
 
+pub use isolated::Isolated;
 pub use rng::Rng;
 pub use wire::*;
 
@@ -55,6 +57,16 @@ impl Ctx {
             }
         };
         writeln!(self.out, "(case {idx} {input} {out})").expect("write");
+    }
+}
+
+/// Entry point for binaries that isolate the real code in a child process (see `isolated`):
+/// with `--child` the process serves `handler` over stdin/stdout, otherwise it is the generator.
+pub fn main_with_child(run: impl FnOnce(&mut Ctx), handler: impl Fn(&Sexp) -> Sexp) {
+    if std::env::args().nth(1).as_deref() == Some("--child") {
+        isolated::child_loop(handler);
+    } else {
+        main_with(run);
     }
 }
 
